@@ -37,6 +37,11 @@ package commands
 //@   pure
 //@   ensures err == nil ==> userId < 1296                          :user_id_in_table_range
 //@   ensures len(remaining) <= len(req)
+// C09: the decoder strips exactly the header the encoder writes (1 command + 3 cache-busting characters,
+// plus 2 user-id characters for commands that carry one): the body starts where the encoder put it
+//@   property C09
+//@   ensures err == nil && c.NeedsUserId ==> len(req) >= 6 && spec_sameslice(remaining, req[6:])      :strips_the_six_octet_header
+//@   ensures err == nil && !c.NeedsUserId ==> len(req) >= 4 && spec_sameslice(remaining, req[4:])     :strips_the_four_octet_header
 
 //@ func EncodeUserId
 //@   property C12
